@@ -15,14 +15,14 @@ RULE = (
     "complete: bit-disjointness of the 49 options from class metadata; every representable value (2^size) of every option "
     "alone, and all ordered pairs of options over {0,1,mid,max} (+ out-of-bounds values for bounded options), each saved and "
     "reloaded in both contexts (stand-alone synth / module in a project) with the options CHDT compared against an independent "
-    "packing computed from the YAML layout; Hypothesis: random full assignments in random order. distinct = assignment "
+    "packing computed from the YAML layout; every option set to v1, saved, then set to v2 on the loaded object and on a clone and saved again (second generation); Hypothesis: random full assignments in random order, cut into up to three generations applied to loaded / cloned objects. distinct = assignment "
     "sequence; non-trivial = >= 2 options non-default or a multi-bit option at its top value or a clamped value"
 )
 ASSUMPTIONS = [
     "YAML byte/bit/size/inverted/exclusive_of/min/max are the declared layout",
     "stored value of an inverted option = not logical value; exclusive partner is cleared on assignment (any assignment, as the library's descriptor documents)",
 ]
-REQUIRED_LABELS = {"quick": ["single", "pair", "random", "clamped", "inverted_set", "exclusive_set"], "thorough": ["single", "pair", "random", "clamped", "inverted_set", "exclusive_set"]}
+REQUIRED_LABELS = {t: ["single", "pair", "random", "clamped", "inverted_set", "exclusive_set", "second_generation_same_option", "multibit_lowered_on_loaded_object", "random_with_later_generations"] for t in ("quick", "thorough")}
 
 OPTION_TYPES = ["AnalogGenerator", "MetaModule", "MultiSynth", "Sampler", "Sound2Ctl"]
 
@@ -35,6 +35,7 @@ def plan(tier):
     descs = [{"kind": "layout"}]
     for t in OPTION_TYPES:
         descs.append({"kind": "singles", "type": t})
+        descs.append({"kind": "regen", "type": t})
         descs.append({"kind": "pairs", "type": t, "part": 0, "parts": 2})
         descs.append({"kind": "pairs", "type": t, "part": 1, "parts": 2})
     per = 200 if tier == "quick" else 3000
@@ -107,17 +108,26 @@ def options_chdt(data, chnm):
     return None if ent is None else ent["CHDT"]
 
 
-def run_assignment(ctx, tname, seq, both_contexts=True):
-    """seq: list of [option name, value].  Raises PropertyViolation."""
+def run_assignment(ctx, tname, seq, both_contexts=True, then=()):
+    """seq: list of [option name, value]; then: further generations [[carrier, seq], ...] applied to
+    the object obtained by loading the previous generation's file ("loaded") or cloning ("clone").
+    Raises PropertyViolation."""
+    spec = specmodel.load()
+    mt = spec[tname]
+    state = model_defaults(mt)
+    mod = cls_of(tname)()
+    back = run_generation(ctx, tname, mt, mod, state, seq, both_contexts, "")
+    for gi, (carrier, seq2) in enumerate(then, 2):
+        mod = back if carrier == "loaded" else back.clone()
+        back = run_generation(ctx, tname, mt, mod, state, seq2, both_contexts, ".gen%d_%s" % (min(gi, 3), carrier))
+    return state
+
+
+def run_generation(ctx, tname, mt, mod, state, seq, both_contexts, gen):
     from rv.api import Project, Synth, read_sunvox_file
     from io import BytesIO
 
-    spec = specmodel.load()
-    mt = spec[tname]
-    cls = cls_of(tname)
-    state = model_defaults(mt)
-    mod = cls()
-    key_ent = tname
+    synth_back = None
     for name, v in seq:
         setattr(mod, name, v)
         model_apply(mt, state, name, v)
@@ -125,9 +135,9 @@ def run_assignment(ctx, tname, seq, both_contexts=True):
             got = getattr(mod, o.name)
             if int(got) != int(state[o.name]) or (o.size == 1 and not isinstance(got, bool)):
                 raise PropertyViolation(
-                    "C11.assign.readback",
+                    "C11.assign.readback" + gen,
                     "%s after %s=%r: %s reads %r, expected %r" % (tname, name, v, o.name, got, state[o.name]),
-                    key="C11.assign.readback:%s.%s" % (tname, o.name),
+                    key="C11.assign.readback%s:%s.%s" % (gen, tname, o.name),
                 )
     for o in mt.options:
         for other in o.exclusive_of:
@@ -137,10 +147,11 @@ def run_assignment(ctx, tname, seq, both_contexts=True):
     for cx in contexts:
         if cx == "synth":
             data = Synth(mod).read()
-            back = read_sunvox_file(BytesIO(data)).module
+            back = synth_back = read_sunvox_file(BytesIO(data)).module
         else:
             p = Project()
-            p.attach_module(mod)
+            p.attach_module(mod.clone() if gen else mod)
+            mod = p.modules[-1]
             data = p.read()
             back = read_sunvox_file(BytesIO(data)).modules[mod.index]
         chdt = options_chdt(data, mt.options_chnm)
@@ -151,16 +162,16 @@ def run_assignment(ctx, tname, seq, both_contexts=True):
             raise PropertyViolation("C11.chunk.length", "%s (%s): options CHDT is %d bytes, highest option byte needs %d (max 64)" % (tname, cx, len(chdt), size), key="C11.chunk.length:" + tname)
         want = bytes(bm[: len(chdt)])
         if chdt != want:
-            raise PropertyViolation("C11.chunk.bytes", "%s (%s): options CHDT %s, independent packing %s (state %r)" % (tname, cx, chdt.hex(), want.hex(), state), key="C11.chunk.bytes:" + tname)
+            raise PropertyViolation("C11.chunk.bytes" + gen, "%s (%s): options CHDT %s, independent packing %s (state %r)" % (tname, cx, chdt.hex(), want.hex(), state), key="C11.chunk.bytes%s:%s" % (gen, tname))
         for o in mt.options:
             got = getattr(back, o.name)
             if int(got) != int(state[o.name]):
                 raise PropertyViolation(
-                    "C11.roundtrip." + cx,
+                    "C11.roundtrip." + cx + gen,
                     "%s: after %r and save/load (%s), %s reads %r, expected %r" % (tname, seq, cx, o.name, got, state[o.name]),
-                    key="C11.roundtrip.%s:%s.%s" % (cx, tname, o.name),
+                    key="C11.roundtrip.%s%s:%s.%s" % (cx, gen, tname, o.name),
                 )
-    return state
+    return synth_back
 
 
 def labels_for(ctx, mt, seq, state):
@@ -204,12 +215,12 @@ def run_layout(ctx):
         ctx.sample({"type": tname, "options": len(mt.options), "bits": len(used)})
 
 
-def guarded(ctx, tname, seq):
+def guarded(ctx, tname, seq, then=()):
     ctx.case()
     try:
-        state = run_assignment(ctx, tname, seq)
+        state = run_assignment(ctx, tname, seq, then=then)
     except PropertyViolation as v:
-        ctx.check(False, v.sub_oracle, v.detail, key=v.key, recipe={"type": tname, "seq": seq})
+        ctx.check(False, v.sub_oracle, v.detail, key=v.key, recipe={"type": tname, "seq": seq, "then": [list(t) for t in then]})
         return
     except Exception as e:  # noqa: BLE001
         from vlib.harness import as_violation
@@ -217,11 +228,11 @@ def guarded(ctx, tname, seq):
         v = as_violation(e, "C11", "assign")
         if v is None:
             raise
-        ctx.check(False, v.sub_oracle, v.detail, key=v.key + ":" + tname, recipe={"type": tname, "seq": seq})
+        ctx.check(False, v.sub_oracle, v.detail, key=v.key + ":" + tname, recipe={"type": tname, "seq": seq, "then": [list(t) for t in then]})
         return
     mt = specmodel.load()[tname]
-    if labels_for(ctx, mt, seq, state):
-        ctx.mark_nontrivial([tname, seq])
+    if labels_for(ctx, mt, seq + [x for _, s2 in then for x in s2], state) or then:
+        ctx.mark_nontrivial([tname, seq, [list(t) for t in then]])
 
 
 def run_singles(ctx, tname):
@@ -234,6 +245,20 @@ def run_singles(ctx, tname):
             ctx.label("single")
             guarded(ctx, tname, [[o.name, v]])
         ctx.sample({"type": tname, "option": o.name, "values": len(vals)})
+
+
+def run_regen(ctx, tname):
+    """Every option set to v1, saved and loaded (or cloned), then set to v2 on that object, saved and loaded again."""
+    mt = specmodel.load()[tname]
+    for o in mt.options:
+        for v1 in pair_values(o):
+            for v2 in pair_values(o):
+                for carrier in ("loaded", "clone"):
+                    ctx.label("second_generation_same_option")
+                    if o.size > 1 and int(v2) < int(v1):
+                        ctx.label("multibit_lowered_on_loaded_object")
+                    guarded(ctx, tname, [[o.name, v1]], then=[[carrier, [[o.name, v2]]]])
+    ctx.sample({"type": tname, "regen": len(mt.options)})
 
 
 def pair_values(o):
@@ -279,7 +304,14 @@ def random_assignment(draw):
         else:
             v = draw(st.integers(0, (1 << o.size) - 1))
         seq.append([o.name, v])
-    return {"type": tname, "seq": seq}
+    # cut the sequence into generations: the later parts are applied to loaded / cloned objects
+    cuts = sorted(draw(st.lists(st.integers(1, max(1, n - 1)), max_size=2, unique=True))) if n > 1 else []
+    parts, lo = [], 0
+    for c in cuts + [n]:
+        parts.append(seq[lo:c])
+        lo = c
+    then = [[draw(st.sampled_from(["loaded", "clone"])), part] for part in parts[1:] if part]
+    return {"type": tname, "seq": parts[0], "then": then}
 
 
 def run_shard(ctx, desc):
@@ -288,6 +320,8 @@ def run_shard(ctx, desc):
         run_layout(ctx)
     elif k == "singles":
         run_singles(ctx, desc["type"])
+    elif k == "regen":
+        run_regen(ctx, desc["type"])
     elif k == "pairs":
         run_pairs(ctx, desc["type"], desc["part"], desc["parts"])
     else:
@@ -295,8 +329,10 @@ def run_shard(ctx, desc):
         def body(case):
             ctx.case()
             ctx.label("random")
-            state = run_assignment(ctx, case["type"], case["seq"])
-            if labels_for(ctx, specmodel.load()[case["type"]], case["seq"], state):
+            state = run_assignment(ctx, case["type"], case["seq"], then=case.get("then", ()))
+            if case.get("then"):
+                ctx.label("random_with_later_generations")
+            if labels_for(ctx, specmodel.load()[case["type"]], case["seq"] + [x for _, s2 in case.get("then", ()) for x in s2], state):
                 ctx.mark_nontrivial(case)
             ctx.sample(case)
 
@@ -308,7 +344,7 @@ def replay(ctx, doc):
     if "case" in r:
         r = r["case"]
     if "seq" in r:
-        run_assignment(ctx, r["type"], r["seq"])
+        run_assignment(ctx, r["type"], r["seq"], then=r.get("then", ()))
     else:
         from vlib.harness import Ctx
 
